@@ -407,6 +407,12 @@ func (h *Handshake) Read(reader io.Reader) error {
 	if _, err := asn1.Unmarshal(buff, h); err != nil {
 		return fmt.Errorf("failed unmarshaling error: %v", err)
 	}
+	// The receiver encodes the handshake again in order to verify its signature (see Bytes), which
+	// is not possible for everything that can be decoded: a domain sent as T61String or GeneralString
+	// is taken over byte for byte and may not be a valid UTF-8 string.
+	if _, err := asn1.Marshal(*h); err != nil {
+		return fmt.Errorf("handshake cannot be encoded again: %v", err)
+	}
 	return nil
 }
 
